@@ -1,0 +1,24 @@
+//go:build verif
+
+package types
+
+// Contracts for the deductive checker in /verif (comment-only; compiled only with -tags verif).
+
+/*@
+alias DaoBalList []github.com/haqq-network/haqq/x/ucdao/types.Balance
+func NewGenesisState
+    inline
+func (Balance).GetAddress
+    inline
+
+// ASSUMED (not verified: sort.Sort over an interface, in-place permutation of the caller's slice):
+// SanitizeGenesisBalances returns a permutation of its argument. san_src / san_dst are the index maps.
+uf san_src(l DaoBalList, i int) int
+uf san_dst(l DaoBalList, k int) int
+func SanitizeGenesisBalances
+    ensures len: len(result) == len(balances)
+    ensures src: forall i int :: 0 <= i && i < len(balances) ==> 0 <= san_src(balances, i) && san_src(balances, i) < len(balances)
+            && result[i] == balances[san_src(balances, i)] && san_dst(balances, san_src(balances, i)) == i
+    ensures dst: forall k int :: 0 <= k && k < len(balances) ==> 0 <= san_dst(balances, k) && san_dst(balances, k) < len(balances)
+            && san_src(balances, san_dst(balances, k)) == k
+@*/
